@@ -500,10 +500,7 @@ func runC14(r *report.Report) {
 		"the backend's own documented limitation (a connected client that does not drain its queue blocks publishers) is not exercised: witnesses acknowledge at once",
 		"after a failed Setup both 0 and 1 Terminate calls are accepted (interface comment and property read differently)")
 	mk := func(p c14params) string { js, _ := json.Marshal(p); return string(js) }
-	n := 2
-	if r.Tier == "thorough" {
-		n = 3
-	}
+	n := 2 // (the thorough tier adds length 3 at the very end: by far the largest part)
 	st := explore.Explore(explore.Config{Harness: "C14.run", Params: mk(c14params{Mode: "hostile", Len: n}), Bound: 0, Workers: report.Workers(), Deadline: r.Deadline()})
 	r.AddExploration("hostile-sequences", "history", fmt.Sprintf("all sequences of %d hostile events over %d packets/frames + reconnect + %d failing backend hooks, started cold or after a valid CONNECT, delay bound 0", n, len(hostileAlphabet()), len(hookNames)), st,
 		"one execution = one hostile sequence against a broker with two witnesses; marker exchange after every event, lifecycle clauses at the end; non-trivial = sequences completed (counted)", "hostile-sequence")
@@ -530,4 +527,11 @@ func runC14(r *report.Report) {
 	r.AddExploration("shutdown-vs-2-connects", "schedule", fmt.Sprintf("the same with 2 CONNECTs, delay bound %d", b), st, "as above", "raced")
 	st = explore.Explore(explore.Config{Harness: "C14.run", Params: mk(c14params{Mode: "storm", Conns: 3}), Bound: b, Workers: report.Workers(), Deadline: r.Deadline()})
 	r.AddExploration("storm-3-peers", "schedule", fmt.Sprintf("3 peers (two sharing a client id) connect, publish, disconnect/drop concurrently with a witness, delay bound %d", b), st, "as above", "raced")
+	if r.Tier == "thorough" {
+		n = 3
+		st = explore.Explore(explore.Config{Harness: "C14.run", Params: mk(c14params{Mode: "hostile", Len: n}), Bound: 0, Workers: report.Workers(), Deadline: r.Deadline()})
+		r.AddExploration("hostile-sequences-len3", "history", fmt.Sprintf("all sequences of %d hostile events over %d packets/frames + reconnect + %d failing backend hooks, started cold or after a valid CONNECT, delay bound 0", n, len(hostileAlphabet()), len(hookNames)), st, "as above", "hostile-sequence")
+		st = explore.Explore(explore.Config{Harness: "C14.run", Params: mk(c14params{Mode: "hostile", Len: n, Real: true}), Bound: 0, Workers: report.Workers(), Deadline: r.Deadline()})
+		r.AddExploration("hostile-sequences-len3-over-baseconn", "history", fmt.Sprintf("the same sequences of %d hostile events over transport.BaseConn", n), st, "as above", "hostile-sequence")
+	}
 }
